@@ -81,7 +81,7 @@ func SetBPFAndDrain(c syscall.RawConn, filter []bpf.RawInstruction) error {
 		return fmt.Errorf("SetBPFAndDrain control failed: %w", err)
 	}
 	if recvErr != nil && recvErr != syscall.EAGAIN {
-		return fmt.Errorf("SetBPFAndDrain failed to drain: %w", err)
+		return fmt.Errorf("SetBPFAndDrain failed to drain: %w", recvErr)
 	}
 
 	// lastly, set the intended filter and it's ready to go
